@@ -682,6 +682,33 @@ func raceSc_promPipe(r *rand.Rand, rounds int) {
 	}
 }
 
+// several goroutines each BUILD (and run) an instrumented pipeline from one shared CollectorConfig value whose ConstLabels
+// map is not nil: the plugin reads what the caller handed over, it never writes into it
+func raceSc_promBuild(r *rand.Rand, rounds int) {
+	if promSetBypass != nil {
+		prev := promSetBypass(true)
+		defer promSetBypass(prev)
+	}
+	for i := 0; i < rounds; i++ {
+		cfg := roprometheus.CollectorConfig{ConstLabels: prometheus.Labels{"service": "verif"}}
+		var wg sync.WaitGroup
+		start := make(chan struct{})
+		for g := 0; g < 4; g++ {
+			wg.Add(1)
+			go func() {
+				defer wg.Done()
+				<-start
+				for k := 0; k < 3; k++ {
+					obs, _ := eePipe(cfg, ro.Just(1, 2, 3), []intOp{ro.Map(func(v int) int { return v + 1 })})
+					raceWaitSub(obs.Subscribe(raceSinkOf[int]()))
+				}
+			}()
+		}
+		close(start)
+		wg.Wait()
+	}
+}
+
 func raceSc_merge(r *rand.Rand, rounds int) {
 	for i := 0; i < rounds; i++ {
 		var obs ro.Observable[int]
@@ -896,6 +923,7 @@ func init() {
 	registerRaceScenario("merge", 5000, raceSc_merge)
 	registerRaceScenario("multiArity", 6000, raceSc_multiArity)
 	registerRaceScenario("promPipe", 1500, raceSc_promPipe)
+	registerRaceScenario("promBuild", 600, raceSc_promBuild)
 	registerRaceScenario("race", 5000, raceSc_race)
 	registerRaceScenario("bufferWhen", 4000, raceSc_bufferWhen)
 	registerRaceScenario("windowWhen", 4000, raceSc_windowWhen)
